@@ -96,6 +96,30 @@ def laws(ctx, o, arrs, logi, rng) -> None:
                 ctx.violation("C04:law:grouping", {"kind": "relation", "vectors": logi, "split": k, "output": base,
                                                    "grouped_output": g})
             ctx.count("laws.grouping")
+    # history: one of the very same array objects is edited in place (an operator overrides a flag, a masked point is
+    # released) and the roll-up is taken again: it is the roll-up of the CURRENT contents
+    if n and rng.random() < 0.5:
+        j, pos = rng.randrange(len(arrs)), rng.randrange(n)
+        newflag = rng.choice([1, 2, 3, 4, 9])
+        old_d = np.ma.getdata(arrs[j])[pos].item()
+        old_m = bool(np.ma.getmaskarray(arrs[j])[pos])
+        arrs[j][pos] = newflag  # also unmasks a masked element of a MaskedArray
+        logi2 = [list(v) for v in logi]
+        logi2[j][pos] = newflag
+        want2 = models.compare(logi2)
+        got2 = cmp(arrs)
+        ctx.count("laws.in_place_edit_histories")
+        if got2 != want2:
+            ctx.violation("C04:history:roll-up-of-edited-array-objects",
+                          {"kind": "relation", "vectors_before": logi, "edited_vector": j, "position": pos, "new_flag": newflag,
+                           "output_before": base, "expected_after": want2, "observed_after": got2})
+        # restore the caller's arrays for the remaining laws
+        if isinstance(arrs[j], np.ma.MaskedArray):
+            np.ma.getdata(arrs[j])[pos] = old_d
+            if old_m:
+                arrs[j][pos] = np.ma.masked
+        else:
+            arrs[j][pos] = old_d
     if cmp([o.raw]) != base:
         ctx.violation("C04:law:idempotence", {"kind": "relation", "vectors": logi, "output": base,
                                               "again": cmp([o.raw])})
